@@ -82,21 +82,42 @@ impl<T> Executor<T> {
         active_tasks
 //@ endslice
 
-//@ slice src/sources/futures.rs / impl Drop for Executor<T> / fn drop :: stmts <<while self.state.incoming.try_recv().is_ok() {}>> .. <<while self.state.incoming.try_recv().is_ok() {}>> props=C10 name=Executor::drop::drain_queue
+//@ slice src/sources/futures.rs / impl Drop for Executor<T> / fn drop :: after <<let active_tasks = self.state.active_tasks.borrow_mut().take().unwrap();>> props=C10 name=Executor::drop::wake_all_then_drain
+//@ rw R20 1 <<for (_, task) in active_tasks>> => <<for task in lit: slab_into_values(active_tasks)>>
+//@ rw R25 1 <<std::panic::catch_unwind(|| waker.wake()).ok();>> => <<wake_catching_unwind(waker);>>
 //@ sig
-    /// S1 slice of `impl Drop for Executor`: its last statement, the loop that drops every queued runnable.
+    /// S1 slice of `impl Drop for Executor`: everything after the table has been taken -- the loop that wakes every parked
+    /// task and the loop that drops every queued runnable. `active_tasks` (the taken table) becomes a parameter. R20: the
+    /// loop head over a Slab's `IntoIter` (pairs) becomes a loop over the Vec of its values; R25:
+    /// `catch_unwind(|| waker.wake()).ok()` becomes a stand-in that wakes and swallows a panic.
     #[verifier::exec_allows_no_decreases_clause]
-    fn drop_drain_queue(&self)
+    fn drop_wake_all_then_drain(&self, active_tasks: Slab<Active<T>>)
 //@ spec
-        // (the drain-only-after-clearing-the-flag discipline of process_events does not apply: the executor is going away)
-        requires may_recv(&self.state.incoming),
+        requires
+            // C10 (may-call side, "A only after B"): the queue may be drained only AFTER every parked task has been woken -- a
+            // wake re-schedules the task's runnable into the queue, and a runnable that arrives after the drain is never
+            // dropped (it keeps its future and the shared state alive: a leak, and a future that is not dropped with its
+            // executor)
+            may_recv(&self.state.incoming) <==> (forall|k: usize| #[trigger] active_tasks@.dom().contains(k) ==> (active_tasks@[k] matches Active::Future(w) ==> w_task_woken(w))),
         ensures
-            // C10: the queue has been drained until it reported nothing more (so every queued runnable -- and with it its
-            // future -- has been dropped here, on the loop thread)
+            // every parked task has been woken, and then the queue has been drained until it reported nothing more (so every
+            // runnable -- and with it its future -- has been dropped here, on the loop thread)
+            forall|k: usize| #[trigger] active_tasks@.dom().contains(k) ==> (active_tasks@[k] matches Active::Future(w) ==> w_task_woken(w)),
             w_empty(&self.state.incoming) || w_disconnected(&self.state.incoming),
-//@ loop 1
+//@ loop <<for>>
+            invariant
+                slab_values_of(active_tasks, lit.seq()),
+                forall|i: int| 0 <= i < lit.index@ ==> (#[trigger] lit.seq()[i] matches Active::Future(w) ==> w_task_woken(w)),
+//@ loop <<while>>
             invariant may_recv(&self.state.incoming),
             ensures w_empty(&self.state.incoming) || w_disconnected(&self.state.incoming),
+//@ before <<while self.state.incoming.try_recv().is_ok() {}>>
+        proof {
+            // every value of the table is one of the values the loop has gone through
+            assert forall|k: usize| #[trigger] active_tasks@.dom().contains(k) implies (active_tasks@[k] matches Active::Future(w) ==> w_task_woken(w)) by {
+                lemma_slab_values(active_tasks, vals_of(active_tasks), k);
+            }
+        }
 //@ endslice
 }
 
@@ -179,6 +200,30 @@ impl<T> Executor<T> {
 //@ endslice
 }
 
+//@ region executor_drop_specs props=C10
+/// this waker has been woken (monotone witness)
+pub uninterp spec fn w_task_woken(w: Waker) -> bool;
+/// Rule R25: `std::panic::catch_unwind(|| waker.wake()).ok();` becomes a call of this stand-in. ASSUMED: it wakes the
+/// waker; a panic of the waker is swallowed (the real expression discards the Result).
+#[verifier::external_body]
+fn wake_catching_unwind(w: Waker)
+    ensures w_task_woken(w),
+{ std::panic::catch_unwind(|| w.wake()).ok(); }
+/// the values of a slab in iteration order (ghost)
+pub uninterp spec fn vals_of<T>(s: Slab<T>) -> Seq<T>;
+pub open spec fn slab_values_of<T>(s: Slab<T>, v: Seq<T>) -> bool { v == vals_of(s) }
+/// Rule R20: stand-in for the loop head `for (_, v) in slab` (Slab's IntoIter of (key, value) pairs)
+#[verifier::external_body]
+fn slab_into_values<T>(s: Slab<T>) -> (r: Vec<T>)
+    ensures r@ == vals_of(s),
+{ unimplemented!() }
+/// ASSUMED: iterating a slab visits every occupied entry
+#[verifier::external_body]
+proof fn lemma_slab_values<T>(s: Slab<T>, v: Seq<T>, k: usize)
+    requires v == vals_of(s), s@.dom().contains(k),
+    ensures exists|i: int| 0 <= i < v.len() && #[trigger] v[i] == s@[k],
+{}
+//@ endregion
 //@ region executor_ctor_specs props=C10
 pub assume_specification<T> [std::cell::RefCell::<T>::new] (t: T) -> (r: RefCell<T>);
 pub assume_specification<T> [Mutex::<T>::new] (t: T) -> (r: Mutex<T>)
